@@ -14,7 +14,7 @@ def _configs(tier):
         if n == 3:
             cat = cat[:4] + cat[-6:-2]
         if n == 2:
-            cat = cat + [(["Drainy", "Drainy"], [0.2, 0.2])]
+            cat = cat + [(["Drainy", "Drainy"], [0.2, 0.2]), (["Drainy", "Drainy"], [0.1, 0.3]), (["SandyLoam", "TightClay"], [0.05, 0.15])]
         for layers, dzs in cat:
             out.append((f"{'/'.join(layers)}|{','.join(map(str, dzs))}", {"layers": layers, "dzs": dzs}))
     return out
